@@ -58,7 +58,27 @@ def outcome(fn):
         r = r[0]
     if isinstance(r, dict):
         return ("dict", None), None
-    return ("class", type(r).__module__.replace("stix2.", "") + "." + type(r).__name__), None
+    name = type(r).__module__.replace("stix2.", "") + "." + type(r).__name__
+    if hasattr(r, "get") and r.get("type") != "bundle":        # (a bundle may hold members of either version; the members of any other object are of the object's own version)
+        other = sorted(n for n in nested_classes(r) if n.split(".")[0] in ("v20", "v21") and n.split(".")[0] != name.split(".")[0])
+        if other:
+            name += "{contains %s}" % ",".join(other)
+    return ("class", name), None
+
+
+def nested_classes(v, acc=None, top=True):
+    import collections.abc
+    from stix2.base import _STIXBase
+    acc = set() if acc is None else acc
+    if isinstance(v, _STIXBase) and not top:
+        acc.add(type(v).__module__.replace("stix2.", "").split(".")[0] + "." + type(v).__name__)
+    if isinstance(v, collections.abc.Mapping):
+        for x in v.values():
+            nested_classes(x, acc, False)
+    elif isinstance(v, (list, tuple)):
+        for x in v:
+            nested_classes(x, acc, False)
+    return acc
 
 
 def write_raw(d, j):
@@ -270,9 +290,16 @@ def run_case(case, part):
     cver, key = case["content_version"], case["key"]
     g = gen.Gen(cver)
     base = g.minimal(key)
+    if case.get("member_claims"):
+        # an observed-data container whose embedded member says it is of the OTHER version
+        base.pop("object_refs", None)
+        member = {"type": "file", "name": "f.txt", "spec_version": case["member_claims"]}
+        if case["member_claims"] == "2.1":
+            member["id"] = "file--3f7f0c5f-5d54-4292-94ea-ec1e1952be0c"
+        base["objects"] = {"0": member}
     sp = model.spec(cver)
     is_obs = sp.classes[key]["category"] == "observables"
-    part.state((cver, key), nontrivial=True)
+    part.state((cver, key, case.get("member_claims")), nontrivial=True)
     own_text = None
     for idc, u in IDS.items():
         j = copy.deepcopy(base)
@@ -294,6 +321,12 @@ def run_case(case, part):
                 if version == "2.0" and idc != "uuid4" and "id" in j and ref[0] == "class":
                     part.violation("C14/named-2.0-accepts-non-v4-identifier/%s" % idc, "naming version 2.0 does not enforce the 2.0 identifier rule", dict(case, id_class=idc, version=version, allow_custom=allow, entry="parse"),
                                    "refused", ref[1])
+                if ref[0] == "class" and "{contains" in ref[1]:
+                    part.violation("C14/member-of-another-version/parse/named=%s" % version, "the members of a parsed object are not all of the object's own version",
+                                   dict(case, id_class=idc, version=version, allow_custom=allow, entry="parse"), "one version throughout, or a refusal", ref[1])
+                if case.get("member_claims") and version in (None, cver) and idc == "uuid4" and ref[0] != "refused":
+                    part.violation("C14/member-claiming-another-version-accepted/parse/named=%s" % version, "a strict parse accepts a container whose member is content of the other version",
+                                   dict(case, id_class=idc, version=version, allow_custom=allow, entry="parse"), "refused", list(ref))
                 known20 = key in model.spec("2.0").classes
                 if version == "2.0" and not known20 and ref[0] == "class":
                     part.violation("C14/named-version-does-not-know-the-type/parse", "a type that does not exist in the named version is parsed with another version's class",
@@ -321,6 +354,9 @@ def run_case(case, part):
                     if version is not None and got[0] == "class" and not got[1].startswith("v%s." % version.replace(".", "")):
                         part.violation("C14/class-of-another-version/%s/named=%s" % (name.split("(")[0], version), "an entry point that was given a version returns a class of the other version",
                                        dict(case, id_class=idc, version=version, allow_custom=allow, entry=name), "v%s.* or a refusal" % version.replace(".", ""), got[1])
+                    if got[0] == "class" and "{contains" in got[1]:
+                        part.violation("C14/member-of-another-version/%s/named=%s" % (name.split("(")[0], version), "the members of an object an entry point returns are not all of the object's own version",
+                                       dict(case, id_class=idc, version=version, allow_custom=allow, entry=name), "one version throughout, or a refusal", got[1])
                     if got[0] == "absent" and exp[0] == "refused":
                         got = ("refused", None)      # a read path that skips / hides a file it cannot parse is a refusal too
                     if got != exp and not (got[0] == "refused" and exp[0] == "refused"):
@@ -392,7 +428,7 @@ def run_case(case, part):
 
 
 def replay(case, part):
-    run_case({"content_version": case["content_version"], "key": case["key"]}, part)
+    run_case({k: case[k] for k in ("content_version", "key", "member_claims") if k in case}, part)
 
 
 def run(run):
@@ -401,6 +437,8 @@ def run(run):
         g = gen.Gen(cver)
         for key in g.top_keys():
             cases.append({"content_version": cver, "key": key})
+    cases.append({"content_version": "2.0", "key": "objects:observed-data", "member_claims": "2.1"})
+    cases.append({"content_version": "2.1", "key": "objects:observed-data", "member_claims": "2.0"})
     run.mode = "DEV (differential)"
     run.rule = ("every type x content version x 5 identifier classes x version argument {None, 2.0, 2.1} x allow_custom {False, default} x up to 19 entry points; states = distinct "
                 "(content version, type); every case is a comparison with a direct stix2.parse(..., version=); + the older on-disk layout next to the current one; + the same content "
